@@ -34,9 +34,20 @@ func buildOrdinals(body ast.Node, info *types.Info) *ordTable {
 	}
 	t := &ordTable{ord: map[ast.Node]string{}, loopID: map[ast.Node]string{}, calls: map[ast.Node]int{}}
 	counts := map[string]int{}
+	var curNode ast.Node
+	// names are keyed by the expression text, not by position: an unrelated edit elsewhere in the
+	// function does not rename an obligation
 	next := func(kind string) string {
-		counts[kind]++
-		return fmt.Sprintf("%s#%d", kind, counts[kind])
+		txt := ""
+		if e, ok := curNode.(ast.Expr); ok {
+			txt = types.ExprString(e)
+			if len(txt) > 60 {
+				txt = txt[:60]
+			}
+		}
+		key := kind + "@" + txt
+		counts[key]++
+		return fmt.Sprintf("%s#%d", key, counts[key])
 	}
 	var walk func(n ast.Node, loopPrefix string, loopCount *int)
 	walk = func(n ast.Node, loopPrefix string, loopCount *int) {
@@ -44,6 +55,7 @@ func buildOrdinals(body ast.Node, info *types.Info) *ordTable {
 			if m == nil {
 				return false
 			}
+			curNode = m
 			switch x := m.(type) {
 			case *ast.FuncLit:
 				if ast.Node(x) != body {
@@ -82,7 +94,6 @@ func buildOrdinals(body ast.Node, info *types.Info) *ordTable {
 				if tv, ok := info.Types[x.X]; ok && tv.Type != nil {
 					if _, isMap := tv.Type.Underlying().(*types.Map); isMap {
 						t.ord[m] = next("mapwrite")
-						counts["bounds"]--
 					}
 				}
 			case *ast.SliceExpr:
@@ -102,8 +113,9 @@ func buildOrdinals(body ast.Node, info *types.Info) *ordTable {
 			case *ast.CompositeLit:
 				t.ord[m] = next("mapwrite")
 			case *ast.CallExpr:
-				counts["call"]++
-				t.calls[m] = counts["call"]
+				ck := "call@" + types.ExprString(x.Fun)
+				counts[ck]++
+				t.calls[m] = counts[ck]
 				// conversions and make get their own ordinals (decided by name: cheap and stable)
 				if id, ok := x.Fun.(*ast.Ident); ok && id.Name == "make" {
 					t.ord[m] = next("make")
@@ -121,7 +133,7 @@ func buildOrdinals(body ast.Node, info *types.Info) *ordTable {
 }
 
 func (c *Ctx) ordOf(n ast.Node, kind string) string {
-	if s, ok := c.ord[n]; ok && strings.HasPrefix(s, kind+"#") {
+	if s, ok := c.ord[n]; ok && strings.HasPrefix(s, kind+"@") {
 		return s
 	}
 	if s, ok := c.ord[n]; ok {
@@ -333,7 +345,7 @@ func (c *Ctx) declareVar(st *State, id *ast.Ident, v Val) {
 		}
 		return
 	}
-	v = c.convertTo(st, v, o.Type())
+	v = c.named(st, "v_"+o.Name(), c.convertTo(st, v, o.Type()))
 	if c.boxed[o] {
 		ref := c.alloc(st)
 		st.cells[o] = ref
@@ -416,6 +428,9 @@ func (c *Ctx) execAssign(st *State, x *ast.AssignStmt) {
 			okT := c.hasDynType(iv, t)
 			z := c.zero(t)
 			u := c.unbox(iv, t)
+			for _, f := range c.typeFacts(u) {
+				st.assume(implies(okT, f))
+			}
 			set(x.Lhs[0], Val{T: "(ite " + okT + " " + u.T + " " + z.T + ")", S: z.S, GT: t})
 			set(x.Lhs[1], Val{T: okT, S: "Bool", GT: types.Typ[types.Bool]})
 			return
@@ -481,17 +496,18 @@ func (c *Ctx) assignTo(st *State, lhs ast.Expr, v Val) {
 		if id, ok := unparen(x.X).(*ast.Ident); ok {
 			if o, ok := c.info.ObjectOf(id).(*types.Var); ok && isStructVal(o.Type()) {
 				old := c.readVar(st, o)
-				nv := Val{T: c.fresh("sv", old.S), S: old.S, GT: old.GT}
 				stt := o.Type().Underlying().(*types.Struct)
+				var vs []string
 				for i := 0; i < stt.NumFields(); i++ {
 					g := stt.Field(i)
 					gs := c.sortOf(g.Type())
 					if g == f {
-						st.assume(eq(c.fldApp(old.S, g.Name(), gs, nv.T), v.T))
+						vs = append(vs, v.T)
 					} else {
-						st.assume(eq(c.fldApp(old.S, g.Name(), gs, nv.T), c.fldApp(old.S, g.Name(), gs, old.T)))
+						vs = append(vs, c.fldApp(old.S, g.Name(), gs, old.T))
 					}
 				}
+				nv := Val{T: mkStruct(old.S, vs), S: old.S, GT: old.GT}
 				c.writeVar(st, o, nv)
 				return
 			}
